@@ -14,6 +14,7 @@ import (
 	"strconv"
 	"strings"
 	"sync"
+	"sync/atomic"
 	"syscall"
 	"testing"
 	"testing/synctest"
@@ -102,6 +103,59 @@ func (w *world) runaway() {
 }
 
 const maxCbPerOp = 50000
+
+// Real-time watchdog, running OUTSIDE the bubble: a goroutine stuck on a sync.Mutex is not
+// "durably blocked", so the bubble neither becomes quiescent nor lets virtual time pass — the
+// current op would never return.  When no op has completed for `limit` of wall time the hung
+// op is recorded as an observation (`blocked in=cancel|expiry|?`, read off the goroutine
+// stacks: is somebody stuck inside Mgr.Cancel / inside the expiry closure of doLater?), the
+// trace is flushed and the process ends (rc 0: the trace is complete up to the hung op).
+var (
+	wdProgress atomic.Int64
+	wdOp       atomic.Value
+	wdDone     atomic.Bool
+)
+
+func wdStep(op string) {
+	wdOp.Store(op)
+	wdProgress.Add(1)
+}
+
+func startWatchdog(h *hx.T) {
+	limit := time.Duration(hx.EnvInt("VERIF_WATCHDOG_MS", 6000)) * time.Millisecond
+	go func() {
+		last, since := wdProgress.Load(), time.Now()
+		for !wdDone.Load() {
+			time.Sleep(100 * time.Millisecond)
+			if p := wdProgress.Load(); p != last {
+				last, since = p, time.Now()
+				continue
+			}
+			if last == 0 || time.Since(since) < limit {
+				continue
+			}
+			buf := make([]byte, 1<<20)
+			st := string(buf[:runtime.Stack(buf, true)])
+			where := "?"
+			for _, g := range strings.Split(st, "\n\n") {
+				if !strings.Contains(g, "sync.(*Mutex).Lock") && !strings.Contains(g, "sync.(*RWMutex)") {
+					continue
+				}
+				if strings.Contains(g, "timer.(*Mgr).Cancel") {
+					where = "cancel"
+					break
+				}
+				if strings.Contains(g, "timer.(*Mgr).doLater") {
+					where = "expiry"
+				}
+			}
+			op, _ := wdOp.Load().(string)
+			h.Emit(op, "blocked in="+where)
+			h.Close()
+			syscall.Exit(0)
+		}
+	}()
+}
 
 func showArgs(args []interface{}) string {
 	parts := make([]string, len(args))
@@ -281,6 +335,7 @@ func (w *world) suffix(manual string) string {
 }
 
 func (w *world) exec(op string) string {
+	wdStep(op)
 	w.mu.Lock()
 	w.curOp, w.cbInOp = op, 0
 	w.mu.Unlock()
@@ -552,7 +607,7 @@ func (g *gen) caseScenario() {
 	g.run("reset rs=0")
 	d := 1 + r.Intn(6)
 	kind := []string{"after", "add"}[r.Intn(2)]
-	sc := r.Intn(9)
+	sc := r.Intn(10)
 	g.h.Count(fmt.Sprintf("scenario.%d", sc))
 	switch sc {
 	case 0: // expiry already queued, then cancel, then drain
@@ -632,7 +687,39 @@ func (g *gen) caseScenario() {
 		g.run("stop")
 		g.run(fmt.Sprintf("adv d=%d", 2*d))
 		g.drain(3)
+	case 9: // Cancel of stale / unknown ids, then life goes on: a new one-shot fires once at its
+		// time, the repeating timer keeps going, a further Cancel returns
+		g.staleCancels(false, d)
 	}
+}
+
+func (g *gen) staleCancels(rs bool, d int) {
+	r := g.h.R
+	drain := func(n int) {
+		if !rs {
+			g.drain(n)
+		}
+	}
+	g.mk("add", d, 0)   // id 2: repeating
+	g.mk("after", d, 0) // id 3: one-shot
+	g.run(fmt.Sprintf("adv d=%d", d))
+	drain(3)
+	stale := []string{"cancel id=3", "cancel id=0", "cancel id=77", "cancel id=3"} // fired one-shot, 0, never issued, twice
+	r.Shuffle(len(stale), func(i, j int) { stale[i], stale[j] = stale[j], stale[i] })
+	for _, c := range stale[:1+r.Intn(len(stale))] {
+		g.h.Count("op.cancel.stale")
+		g.run(c)
+	}
+	g.mk("after", d, 0) // id 4: must fire exactly once at its time
+	g.run(fmt.Sprintf("adv d=%d", d))
+	drain(3)
+	g.run(fmt.Sprintf("adv d=%d", d))
+	drain(2)
+	g.run("cancel id=2") // a real cancel must still return and work
+	g.run("cancel id=2")
+	g.mk("after", 1, 0)
+	g.run(fmt.Sprintf("adv d=%d", 2*d))
+	drain(3)
 }
 
 // the owner loop is busy while timers expire, then the run service is stopped (from a foreign
@@ -704,6 +791,8 @@ func TestRun(t *testing.T) {
 	log.SetOutput(io.Discard)
 	h := hx.Open()
 	clean := false
+	startWatchdog(h)
+	defer wdDone.Store(true)
 	synctest.Test(t, func(t *testing.T) {
 		w := &world{h: h}
 		run := func(op string) {
@@ -759,6 +848,11 @@ func TestRun(t *testing.T) {
 				case x < 4:
 					h.Count("case.rs")
 					g.caseRandom(true)
+				case x < 5 && h.R.Intn(3) == 0:
+					h.Count("case.rs-stale-cancels")
+					g.created = 0
+					g.run("reset rs=1")
+					g.staleCancels(true, 1+h.R.Intn(5))
 				case x < 5:
 					h.Count("case.rs-busy-stop")
 					g.caseBusyStop()
